@@ -210,13 +210,13 @@ def table_u(facts, rep, w, rule="R09.1", only=None):
         if b is None:
             rep.fail(rule, w.overlay, "%s implemented" % op, "missing")
             continue
-        marks = [(cb, s, tr, recv) for cb, s, tr, recv in ov.path_sites(b, ("create_file",)) if ov.is_marker(recv)]
-        ups = upper_sites(b, (op,))
+        # (sites in private helpers of the overlay are the operation's own, read in its name space with the guards of the call chain)
+        marks = [x for x in ov.deep_path_sites_x(b, ("create_file",)) if ov.is_marker(x[3])]
+        ups = [x for x in ov.deep_path_sites_x(b, (op,)) if ov.is_upper_plain(x[3])]
         if not marks:
             rep.fail(rule, b.id, "%s: marker creation present" % op, "no marker creation found", b.span)
-        for cb, s, tr, recv in marks + ups:
-            what = "marker creation" if (cb, s, tr, recv) in marks else "upper removal"
-            gs = ov.guards(cb, s.bb)
+        for cb, s, tr, recv, gs, _anchor, _sf in marks + ups:
+            what = "marker creation" if any(x[1] is s for x in marks) else "upper removal"
             ex = ov.u_exists(gs, ov.is_key, True)
             n += 1
             rep.ob(rule, b.id, "%s: union exists before %s" % (op, what), ex, "" if ex else
@@ -237,12 +237,25 @@ def table_u(facts, rep, w, rule="R09.1", only=None):
                 rep.ob(rule, b.id, "remove_dir: union directory empty before %s" % what, em, "" if em else
                        "remove_dir hides the directory without checking the merged listing: children in lower layers "
                        "stay visible under a hidden parent", s.line)
+        # ... nothing at all is done before the union was asked: every other mutating call of the operation (preparing the marker's
+        # directory "so that the removal can be recorded") comes after the successful lookup too — a removal of a missing entry
+        # answers not-found, not whatever the preparation ran into (a read-only write layer's NotSupported, a file in the way)
+        seen_sites = {id(x[1]) for x in marks + ups}
+        for cb, s, tr, recv, gs, _anchor, _sf in ov.deep_path_sites_x(b, tuple(MUTATING) + ("create_dir_all", "remove_dir_all", "copy_file", "move_file",
+                                                                                             "copy_dir", "move_dir")):
+            if id(s) in seen_sites:
+                continue
+            ex = ov.u_exists(gs, ov.is_key, True)
+            n += 1
+            rep.ob(rule, b.id, "%s: union exists before %s" % (op, sname(s.path)), ex, "" if ex else
+                   "%s runs before the union lookup of the path: removing a missing entry can fail with that call's error instead of "
+                   "not-found (and leaves its effect behind)" % sname(s.path), s.line)
         # the marker is written only once the write layer no longer has the path: on every path to it the write layer was either
         # found not to have the entry (exists == false) or its copy was removed successfully.  A removal that is skipped for
         # another reason ("the upper entry is not a file") leaves the upper entry — for a directory, with everything below it —
         # in place under a marker that hides it: the children stay reachable under a parent that does not exist
-        for cb, s, tr, recv in marks:
-            sets = ov.path_guard_sets(cb, s.bb)
+        for cb, s, tr, recv, gs_dom, _anchor, sets_fn in marks:
+            sets = sets_fn()
             gone = sets is not None
             for gs in sets or ():
                 absent = any(g[0] == "bool" and g[2] is False and peel(g[1])[0] == "call" and sname(peel(g[1])[1]) == "exists" and
@@ -251,7 +264,7 @@ def table_u(facts, rep, w, rule="R09.1", only=None):
                               peel(g[1])[2] and ov.is_upper_plain(peel(g[1])[2][0]) for g in gs)
                 # (once the union entry is known to be of the operation's type, "the write layer has no entry of that type here" is
                 # the same as "it has no entry here": the topmost entry decides the union's type)
-                typed = ov.u_type(ov.guards(cb, s.bb), ov.is_key, typ)
+                typed = ov.u_type(gs_dom, ov.is_key, typ)
                 pred_ = "is_file" if typ == "File" else "is_dir"
                 absent_t = typed and any(g[0] == "bool" and g[2] is False and peel(g[1])[0] == "call" and sname(peel(g[1])[1]) == pred_ and
                                          peel(g[1])[2] and ov.is_upper_plain(peel(g[1])[2][0]) for g in gs)
@@ -396,16 +409,35 @@ def resolver_rules(facts, rep, w, rule="R09.3"):
                                    st.rv.agg["variant"], st.line)
             # every Ok return of a layer path is guarded by that path's exists()
             for ct, gs0, bb in ov.inter.ret_cases(b):
-                if ov.inter.case_polarity(ct) != "ok" or cb is not ov.inter.code_body(b):
+                if ov.inter.case_polarity(ct) == "err" or cb is not ov.inter.code_body(b):
                     continue
+                # (a tail call `return self.write_path(path)` hands out what the helper returns: judged like `Ok(helper(..)?)`)
                 v = ct[3][0][1] if ct[0] == "agg" and ct[3] else ct
-                if "anylayer" in ov.origin_class(v):
-                    gs = ov.guards(cb, bb)
+                gs = ov.guards(cb, bb)
+                root_case = any(g[0] == "bool" and g[2] is True and g[1][0] == "call" and g[1][1] in ("str::is_empty", "String::is_empty") and
+                                g[1][2] and norm(g[1][2][0])[0] == "arg" and norm(g[1][2][0])[1] == 1 for g in gs)
+                if "anylayer" in ov.origin_class(v) or (ov.origin_class(v) == {"upper"} and not root_case):
+                    # (a path of the write layer handed out without a look — "a single-layer overlay has nothing to resolve" —
+                    # makes remove_file of a missing entry succeed and leave a marker)
                     ok = any(g[0] == "bool" and g[2] is True and peel(g[1])[0] == "call" and sname(peel(g[1])[1]) == "exists" and
                              norm(peel(g[1])[2][0]) == norm(v) for g in gs)
                     n += 1
                     rep.ob(rule, b.id, "resolver: first layer that has the path is returned", ok, "" if ok else
                            "a layer path is returned without its exists() having held", cb.blocks[bb].term.line)
+                elif root_case:
+                    # the overlay's root is the write layer's own path — not the root of the filesystem that hosts it (`.root()`),
+                    # whose metadata and time stamps are another directory's
+                    x = norm(v)
+                    while x[0] == "call" and isinstance(x[1], str) and short(x[1]) in ("Clone::clone", "ToOwned::to_owned", "Deref::deref") and x[2]:
+                        x = norm(x[2][0])
+                    own = (x[0] == "call" and isinstance(x[1], str) and short(x[1]) == "Index::index") or x[0] == "index" or \
+                        (x[0] == "call" and ov.inter.body_of_call(x) is not None and ov.is_private_helper(ov.inter.body_of_call(x)))
+                    okr = ov.origin_class(v) == {"upper"} and own
+                    n += 1
+                    rep.ob(rule, b.id, "resolver: the root resolves to the write layer's own path", okr, "" if okr else
+                           "for the overlay's root the resolver returns %s instead of the write layer path itself: with a write layer that is "
+                           "a sub-directory of a filesystem the root's metadata (and what the setters reach) are different directories" % fmt(x)[:50],
+                           cb.blocks[bb].term.line)
     return n
 
 
